@@ -92,6 +92,9 @@ pub enum BOp {
 #[derive(Clone, Debug, Serialize, Deserialize, PartialEq)]
 pub enum Node {
   Hot(usize),
+  /// the BehaviorSubject twin of hot input i (current value first, then live)
+  #[serde(alias = "Beh")]
+  Behavior(usize),
   Of(i64),
   FromIter(u8),
   Empty,
@@ -228,14 +231,50 @@ impl futures::Stream for CountStream {
 #[derive(Clone)]
 pub struct EnvL {
   pub hots: Vec<Subject<'static, Val, E>>,
+  /// one BehaviorSubject per hot input, fed the same events right after it
+  pub behaviors: Vec<BehL>,
   pub counters: Arc<Counters>,
 }
+pub type BehL = BehaviorSubject<Val, Subject<'static, Val, E>>;
+pub type BehS = BehaviorSubject<Val, SubjectThreads<Val, E>>;
 
 #[derive(Clone)]
 pub struct EnvS {
   pub hots: Vec<SubjectThreads<Val, E>>,
+  pub behaviors: Vec<BehS>,
   pub counters: Arc<Counters>,
 }
+
+macro_rules! env_impl {
+  ($env:ident, $hot:ty, $beh:ty) => {
+    impl $env {
+      pub fn new(hots: Vec<$hot>, counters: Arc<Counters>) -> Self {
+        let behaviors = hots.iter().map(|_| <$beh>::new(Val::I(-40))).collect();
+        $env { hots, behaviors, counters }
+      }
+      /// one event into hot input `i` and then into its BehaviorSubject twin
+      pub fn emit(&self, i: usize, ev: &crate::pipe::In, v: Val, e: E) {
+        use crate::pipe::In;
+        match ev {
+          In::Next => {
+            self.hots[i].clone().next(v.clone());
+            self.behaviors[i].clone().next(v)
+          }
+          In::Err => {
+            self.hots[i].clone().error(e);
+            self.behaviors[i].clone().error(e)
+          }
+          In::Complete => {
+            self.hots[i].clone().complete();
+            self.behaviors[i].clone().complete()
+          }
+        }
+      }
+    }
+  };
+}
+env_impl!(EnvL, Subject<'static, Val, E>, BehL);
+env_impl!(EnvS, SubjectThreads<Val, E>, BehS);
 
 fn ms(d: u8) -> Duration {
   Duration::from_millis(d as u64)
@@ -267,6 +306,7 @@ macro_rules! build_fn {
     pub fn $fname(node: &Node, env: &$env) -> $box {
       match node {
         Node::Hot(i) => env.hots[*i % env.hots.len()].clone().box_it(),
+        Node::Behavior(i) => env.behaviors[*i % env.behaviors.len()].clone().box_it(),
         Node::Of(v) => observable::of(Val::I(*v)).on_error_map(|_| 0).box_it(),
         Node::FromIter(n) => observable::from_iter((0..*n as i64).map(|i| Val::I(500 + i))).on_error_map(|_| 0).box_it(),
         Node::Empty => ObservableExt::<Val, std::convert::Infallible>::on_error_map(observable::empty(), |_| 0).box_it(),
@@ -586,6 +626,7 @@ impl Node {
           }
         }
         Node::Hot(_) => out.push("Hot".into()),
+        Node::Behavior(_) => out.push("Behavior".into()),
         Node::Of(_) => out.push("Of".into()),
         Node::FromIter(_) => out.push("FromIter".into()),
         Node::Empty => out.push("Empty".into()),
@@ -758,7 +799,13 @@ pub fn gen_node(rng: &mut Rng, cfg: &GenCfg, depth: usize) -> Node {
       0..=3 => Node::Ticker { p: *rng.pick(&[1u8, 2, 5]) },
       4..=6 => Node::PullIter(rng.range(0, 40) as u8),
       7 | 8 => Node::PollStream(rng.range(0, 40) as u8),
-      9..=11 => Node::Hot(rng.below(cfg.n_hot.max(1))),
+      9..=11 => {
+        if rng.chance(1, 5) {
+          Node::Behavior(rng.below(cfg.n_hot.max(1)))
+        } else {
+          Node::Hot(rng.below(cfg.n_hot.max(1)))
+        }
+      }
       _ => Node::Interval { p: *rng.pick(&[1u8, 2, 5]), take: rng.range(1, 4) as u8 },
     };
   }
@@ -782,7 +829,14 @@ pub fn gen_node(rng: &mut Rng, cfg: &GenCfg, depth: usize) -> Node {
       12 => Node::Create((0..rng.below(6)).map(|_| rng.weighted(&[5, 1, 2]) as u8).collect()),
       13 => Node::FromFuture,
       14 => Node::FromStream(rng.below(4) as u8),
-      0..=5 => Node::Hot(rng.below(cfg.n_hot.max(1))),
+      0..=4 => Node::Hot(rng.below(cfg.n_hot.max(1))),
+      5 => {
+        if rng.chance(1, 2) {
+          Node::Behavior(rng.below(cfg.n_hot.max(1)))
+        } else {
+          Node::Hot(rng.below(cfg.n_hot.max(1)))
+        }
+      }
       6 => Node::Of(rng.below(9) as i64),
       7 => Node::FromIter(rng.below(5) as u8),
       8 => Node::Empty,
